@@ -139,19 +139,24 @@ pub fn m_replay_number_print() {
     let k: u8 = vany(); let x: f64 = vany();
     vassume(k >= 1 && k <= 4);
     vassume(x == x.trunc() && x.abs() <= 9007199254740992.0);
-    let cfg = blank_config();
     let s = Session::new();
     let nt = match k { 1 => NumberType::Octal, 2 => NumberType::Hexadecimal, 3 => NumberType::Binary, _ => NumberType::Raw };
-    let out = NumberItem(x, nt).print(&cfg, &s);
     let n = x as i64;
-    let back = match k {
-        1 => i64::from_str_radix(out.trim_start_matches("0o"), 8),
-        2 => i64::from_str_radix(out.trim_start_matches("0x"), 16),
-        3 => i64::from_str_radix(out.trim_start_matches("0b"), 2),
-        _ => out.parse::<i64>(),
-    };
     if k != 4 { vassume(n >= 0); }
-    assert!(back == Ok(n));
+    // under the default number settings and under settings that keep two fraction digits: a based number and a
+    // timestamp are integers and print as their digits whatever the decimal-number settings say
+    for keep_fraction in [false, true].iter() {
+        let mut cfg = blank_config();
+        if *keep_fraction { cfg.number_config.decimal_digits = 2; cfg.number_config.remove_fract_if_zero = false; cfg.number_config.use_fract_rounding = true; }
+        let out = NumberItem(x, nt).print(&cfg, &s);
+        let back = match k {
+            1 => i64::from_str_radix(out.trim_start_matches("0o"), 8),
+            2 => i64::from_str_radix(out.trim_start_matches("0x"), 16),
+            3 => i64::from_str_radix(out.trim_start_matches("0b"), 2),
+            _ => out.parse::<i64>(),
+        };
+        assert!(back == Ok(n));
+    }
 }
 
 /// radix print under floating-point rounding natively: (NumberType code, the solver's N): the solver's error terms
@@ -761,7 +766,7 @@ pub fn m_replay_wiring() {}
 pub fn m_replay_number_literal() {
     let conv: u8 = vany(); let sign: u8 = vany(); let ng: u8 = vany();
     let g0: u8 = vany(); let g1: u8 = vany(); let g2: u8 = vany(); let nf: u8 = vany();
-    vassume(conv <= 3 && sign <= 2 && ng >= 1 && ng <= 3 && g0 >= 1 && g0 <= 3 && g1 <= 3 && g2 <= 3 && nf <= 3);
+    vassume(conv <= 3 && sign <= 2 && ng >= 1 && ng <= 3 && g0 >= 1 && (g0 <= 3 || (ng == 1 && g0 <= 24)) && g1 <= 3 && g2 <= 3 && nf <= 3);
     let sizes = [g0, g1, g2];
     let (ts, ds) = match conv { 0 => (",", "."), 1 => (".", ","), 2 => ("", "."), _ => ("", ",") };
     let mut written = String::new();
@@ -782,19 +787,24 @@ pub fn m_replay_number_literal() {
     let note: u8 = vany();
     vassume(note <= 9);
     let (suffix, factor) = match note { 0 => ("", 1.0), 1 => ("k", 1e3), 2 => ("K", 1e3), 3 => ("M", 1e6), 4 => ("G", 1e9), 5 => ("T", 1e12), 6 => ("P", 1e15), 7 => ("Z", 1e18), 8 => ("Y", 1e21), _ => ("q", 1.0) };
-    written.push_str(suffix);
     let parser: u8 = vany();
     vassume(parser <= 2);
-    let written = match parser { 0 => written, 1 => alloc::format!("{}%", written), _ => alloc::format!("${}", written) };
+    // the money patterns admit only the listed suffix letters - or an empty suffix group; the number pattern any letters
+    written.push_str(if parser == 2 && note == 9 { "" } else { suffix });
+    // a money literal is tried in currencies of 2, 3 and 0 fraction digits (the currency is symbolic in the encoding)
+    let spellings: Vec<String> = match parser { 0 => alloc::vec![written.clone()], 1 => alloc::vec![alloc::format!("{}%", written)],
+        _ => alloc::vec![alloc::format!("${}", written), alloc::format!("{} kwd", written), alloc::format!("{} jpy", written)] };
     let mut calc = crate::SmartCalc::default();
     calc.set_decimal_seperator(ds.to_string());
     calc.set_thousand_separator(ts.to_string());
     let want = canonical.parse::<f64>().expect("canonical literal") * factor;
-    let r = calc.execute("en", written);
-    let line = r.lines[0].as_ref().expect("a result line");
-    let res = line.result.as_ref().expect("the literal evaluates");
-    let got = match res.ast.deref() { SmartCalcAstType::Item(i) => i.get_underlying_number(), _ => f64::NAN };
-    assert!((got - want).abs() <= 1e-9 * want.abs().max(1.0));
+    for text in spellings.iter() {
+        let r = calc.execute("en", text.clone());
+        let line = r.lines[0].as_ref().expect("a result line");
+        let res = line.result.as_ref().expect("the literal evaluates");
+        let got = match res.ast.deref() { SmartCalcAstType::Item(i) => i.get_underlying_number(), _ => f64::NAN };
+        assert!((got - want).abs() <= 1e-9 * want.abs().max(1.0));
+    }
 }
 #[cfg(kani)]
 pub fn m_replay_number_literal() {}
@@ -875,13 +885,15 @@ pub fn m_replay_radix_literal() {}
 #[cfg(not(kani))]
 pub fn m_replay_at_date() {
     let is_number: bool = vany(); let x: f64 = vany();
+    let dz: i32 = vany(); let tz: i32 = vany();
+    vassume(dz >= -12 * 60 && dz <= 14 * 60 && tz >= -12 * 60 && tz <= 14 * 60);
     let cfg = blank_config();
     let s = Session::new();
     let tk = mk_tokinizer(&cfg, &s);
     let day = NaiveDate::from_ymd_opt(2021, 6, 15).unwrap();
     let mut f: Map<String, Rc<TokenInfo>> = Map::new();
-    f.insert("source".to_string(), mk_info(0, 1, Some(TokenType::Date(day, tz0()))));
-    let t = if is_number { TokenType::Number(x, NumberType::Decimal) } else { TokenType::Time(day.and_hms_opt(10, 30, 15).unwrap(), tz0()) };
+    f.insert("source".to_string(), mk_info(0, 1, Some(TokenType::Date(day, TimeOffset { name: "DZ".to_string(), offset: dz }))));
+    let t = if is_number { TokenType::Number(x, NumberType::Decimal) } else { TokenType::Time(day.and_hms_opt(10, 30, 15).unwrap(), TimeOffset { name: "TZ".to_string(), offset: tz }) };
     f.insert("time".to_string(), mk_info(2, 3, Some(t)));
     let r = crate::tokinizer::verif_k_local::at_date(&cfg, &tk, &f);
     if !is_number {
